@@ -11,6 +11,7 @@ import (
 	"strings"
 
 	"github.com/z7zmey/php-parser/pkg/ast"
+	"github.com/z7zmey/php-parser/pkg/position"
 	"github.com/z7zmey/php-parser/pkg/token"
 )
 
@@ -29,16 +30,23 @@ func init() {
 // Half of the trees get their child slices re-allocated with capacity = length, half keep what the
 // parser's appends left (formatStmts' `insert` must not depend on spare capacity).
 
+func posWord(p *position.Position) string {
+	if p == nil {
+		return "p-"
+	}
+	return fmt.Sprintf("p%d:%d:%d:%d", p.StartLine, p.EndLine, p.StartPos, p.EndPos)
+}
+
 func encTokI(b *strings.Builder, t *token.Token) {
 	b.WriteString(strconv.Itoa(len(t.FreeFloating)))
 	for _, f := range t.FreeFloating {
 		if f != nil {
-			fmt.Fprintf(b, ",%d,x%s", int(f.ID), hex.EncodeToString(f.Value))
+			fmt.Fprintf(b, ",%d,x%s,%s", int(f.ID), hex.EncodeToString(f.Value), posWord(f.Position))
 		} else {
-			b.WriteString(",0,x")
+			b.WriteString(",0,x,p-")
 		}
 	}
-	fmt.Fprintf(b, ",%d,x%s", int(t.ID), hex.EncodeToString(t.Value))
+	fmt.Fprintf(b, ",%d,x%s,%s", int(t.ID), hex.EncodeToString(t.Value), posWord(t.Position))
 }
 
 // encodeTreeI: encodeTree with token ids; ok=false also when a free-floating entry is nil.
@@ -48,7 +56,7 @@ func encodeTreeI(b *strings.Builder, v ast.Vertex) bool {
 		return false
 	}
 	fs := fieldsOf(v)
-	fmt.Fprintf(b, "N,%d,%d", k, len(fs))
+	fmt.Fprintf(b, "N,%d,%d,%s", k, len(fs), posWord(v.GetPosition()))
 	tokOK := func(t *token.Token) bool {
 		for _, f := range t.FreeFloating {
 			if f == nil {
@@ -72,6 +80,10 @@ func encodeTreeI(b *strings.Builder, v ast.Vertex) bool {
 				encTokI(b, t)
 			}
 		case 2:
+			if f.Val.IsNil() {
+				b.WriteString("Tn")
+				continue
+			}
 			fmt.Fprintf(b, "T,%d", f.Val.Len())
 			for i := 0; i < f.Val.Len(); i++ {
 				if f.Val.Index(i).IsNil() {
